@@ -338,6 +338,7 @@ def session_is_current(ops, res, n):
 def main():
     ck = Check('C20')
     ck.trusted = ['Coq 8.16.1 kernel; vm_compute for the DES known-answer examples and table side conditions; no native_compute',
+                  'translate/kspec_c20.py + py2coq.py (statements around the crypto calls of tt3_sony.py, tt3.py, tt2_nxp.py -> Gen/AuthK.v; pyDes uninterpreted)',
                   'extraction: ExtrOcamlBasic only; extract/c20_run.ml driver; OCaml 4.13.1',
                   'harness/sim/auth_tags.py (simulated cards, integer DES written independently of pyDes) and the fake frontend',
                   'pyDes 2.0.1 is the DES implementation nfcpy calls; the Coq DES model is compared with it on known answers and random blocks']
@@ -349,7 +350,7 @@ def main():
                       'FeliCa protect() with protect_from = 0 is modelled for cards that do not answer the NFC Forum (12FCh) poll; the NDEF '
                       'attribute update that follows otherwise belongs to C01-C03',
                       'passwords are byte strings']
-    ck.coq(gen=[], targets=['Proofs/DesKat.vo', 'Proofs/AuthMac.vo', 'Proofs/AuthTag.vo', 'Proofs/AuthLiteS.vo', 'Proofs/AuthNtag.vo', 'Proofs/AuthDefects.vo'], props='C20')
+    ck.coq(gen=['AuthK'], targets=['Proofs/DesKat.vo', 'Proofs/AuthMac.vo', 'Proofs/AuthTag.vo', 'Proofs/AuthLiteS.vo', 'Proofs/AuthNtag.vo', 'Proofs/AuthDefects.vo', 'Bridge/Auth.vo'], props='C20')
     mr = ck.model()
     rng = ck.rng
     quick = ck.tier == 'quick'
